@@ -35,6 +35,7 @@ SHIPPED_METERS_TO_FL = 3.28084 / 100   # the constant finding F4 is about
 SIG_F4 = 'altitude-to-FL-multiplies-by-METERS_TO_FL-which-is-not-the-inverse-of-FL_TO_METERS'
 SIG_SORT = 'single-mass-interpolator-takes-values-in-row-order-not-flight-level-order'
 SIG_SET = 'coverage-count-test-accepts-duplicate-node-plus-missing-node'
+SIG_PTF0 = 'ptf-climb-entry-of-0-fpm-becomes-a-cruise-row-and-the-generated-table-is-refused'
 
 HEADER = ('From Coq Require Import ZArith List Bool PrimFloat.\n'
           'From AV Require Import lib.Num lib.FloatMath model.C06_Model.\n'
@@ -88,7 +89,7 @@ def table_is_valid(rows) -> bool:
     """Valid table in the sense of the property's quantifier: three masses; climb and cruise are complete
     FL x 3-mass grids, descent a complete FL x 1-mass grid; airspeed depends on FL only in every phase,
     climb fuel flow on FL only."""
-    if len({r[1] for r in rows}) != 3:
+    if not all_finite(rows) or len({r[1] for r in rows}) != 3:
         return False
     for p in PHASES:
         pr = phase_rows(rows, p)
@@ -106,7 +107,13 @@ def table_is_valid(rows) -> bool:
     return True
 
 
+def all_finite(rows) -> bool:
+    return all(math.isfinite(v) for r in rows for v in r)
+
+
 def every_phase_complete(rows) -> bool:
+    if not all_finite(rows):          # NaN cells: outside the property's domain; correspondence only
+        return True
     return all(grid_facts(phase_rows(rows, p))[3] for p in PHASES)
 
 
@@ -237,7 +244,8 @@ def order_rows(rng, rows):
 
 
 MALFORMED = ['missing', 'duplicate', 'duplicate_other_values', 'dup_missing', 'masses2', 'masses4', 'descent3',
-             'climb2', 'tas_mass', 'ff_mass_climb', 'descent_varies', 'no_descent', 'only_descent']
+             'climb2', 'tas_mass', 'ff_mass_climb', 'descent_varies', 'no_descent', 'only_descent',
+             'nan_value', 'nan_rocd', 'nan_fl', 'nan_mass']
 
 
 def gen_malformed(rng, kind):
@@ -293,6 +301,9 @@ def gen_malformed(rng, kind):
             for m in masses:
                 if m != r[1]:
                     rows.append([r[0], m, r[2], r[3] * (1.0 + 0.1 * (m > r[1])) - 0.1, r[4]])
+    elif kind.startswith('nan_'):
+        col = {'nan_value': rng.choice([2, 4]), 'nan_rocd': 3, 'nan_fl': 0, 'nan_mass': 1}[kind]
+        rows[rng.choice(idx)][col] = math.nan
     elif kind == 'no_descent':
         rows = [r for r in rows if phase_of(r[3]) != 'Descent']
     elif kind == 'only_descent':
@@ -357,6 +368,13 @@ def gen_queries(rng, rows, flm: float, dense: bool):
         add(True, p, nxt(F[0], False), rng.choice(M), 'out-fl-ulp')
         add(False, p, (F[-1] + rng.uniform(0.01, 50.0)) * flm, rng.choice(M), 'out-fl')
         add(False, p, (F[0] - rng.uniform(0.01, 50.0)) * flm, rng.choice(M), 'out-fl')
+        # inside the flight-level range of the whole table but outside this phase's own range
+        allF = sorted({r[0] for r in rows if math.isfinite(r[0])})
+        other = [f for f in allF if f < F[0] or f > F[-1]]
+        if other:
+            fo = rng.choice(other)
+            add(False, p, fo * flm, rng.choice(M), 'out-phase-in-table')
+            add(True, p, fo, rng.choice(M), 'out-phase-in-table')
         qin = rng.uniform(F[0], F[-1])
         add(True, p, qin, nxt(mhi, True), 'out-mass-ulp')
         add(True, p, qin, nxt(mlo, False), 'out-mass-ulp')
@@ -402,7 +420,8 @@ def gen_ptf_case(rng, flm):
     nom = lo + rng.randint(1000, 80000)
     hi = nom + rng.randint(1000, 80000)
     fls = sorted({rng.choice([0, 5, 10, 15, 20, 30, 40]) for _ in range(rng.randint(1, 5))}
-                 | {10 * rng.randint(5, 45) for _ in range(rng.randint(1, 9))})
+                 | {10 * rng.randint(5, 45) for _ in range(rng.randint(1, 9))}
+                 | ({0} if rng.random() < 0.6 else set()))
     cruise_from = rng.choice(fls)
     has_cruise = [f for f in fls if f >= cruise_from]
     if len(has_cruise) == 0:
@@ -418,6 +437,11 @@ def gen_ptf_case(rng, flm):
             cru = (rng.randint(100, 520), round(rng.uniform(5, 200), dec), round(rng.uniform(5, 200), dec),
                    round(rng.uniform(5, 200), dec))
         lines.append((f, cru, climb, desc))
+    if rng.random() < 0.2 and len(lines) >= 2:
+        # BADA PTF files give a rate of climb of 0 where the aircraft cannot climb (heavy, near the ceiling)
+        for k in range(len(lines) - rng.randint(1, 2), len(lines)):
+            f, cru, cl, de = lines[k]
+            lines[k] = (f, cru, (cl[0], cl[1], cl[2] if rng.random() < 0.7 else 0, 0, cl[4]), de)
     style = {'blank_rows': rng.random() < 0.7, 'wide': rng.random() < 0.5, 'payload': rng.randint(500, 60000),
              'maxalt': rng.randint(200, 510) * 100, 'name': rng.choice(['B738__', 'A320__', 'XX1___', 'E190__'])}
     case = {'kind': 'ptf', 'low': lo, 'nom': nom, 'high': hi, 'lines': lines, 'style': style}
@@ -663,7 +687,7 @@ def same_result(a, b, exact=False):
     if a[0] == 'Rej':
         return norm_err(a[1]) == norm_err(b[1])
     if exact:
-        return all(x == y for x, y in zip(a[1:], b[1:]))
+        return all(x == y or (math.isnan(x) and math.isnan(y)) for x, y in zip(a[1:], b[1:]))
     sc = max(abs(x) for x in list(a[1:]) + list(b[1:]))
     return all(close(x, y, rel=1e-9, scale=sc) for x, y in zip(a[1:], b[1:]))
 
@@ -841,6 +865,7 @@ def extract_and_link(chk: Check):
     if chk.coq_compile_gen('C06_Extracted', text) is None:
         return None
     chk.coq_link('C06_Link.v')
+    chk.coq_link('C06_Link_Rules.v')
     import shutil
     probe = chk.gen / 'C06_Link_F4fixed.v'
     shutil.copy(VERIF / 'coq/link/C06_Link_F4fixed.v', probe)
@@ -946,6 +971,123 @@ def check_tables(chk: Check, cases, sw, units: Units):
             chk.traces_validated += 1
 
 
+# ---- sessions: several models in one process (state must not leak between model instances) ----
+
+def gen_session_case(rng, flm):
+    """2-3 valid tables with the SAME flight-level / mass grid in every phase and different tabulated values (one of
+    them may be an exact copy), their queries, and an operation list: create all; every query asked of the models
+    in turn (so the models alternate inside each phase); re-create model 0 and ask again; ask, re-create, ask."""
+    base, _ = gen_valid_rows(rng)
+    base, oname = order_rows(rng, base)
+    n = rng.choice([2, 2, 3])
+    tables = [base]
+    for j in range(1, n):
+        if rng.random() < 0.15:
+            tables.append([list(r) for r in base])
+            continue
+        s_t, s_r, s_f = rng.uniform(1.1, 3.0), rng.uniform(1.1, 3.0), rng.uniform(1.1, 3.0)
+        var = []
+        for r in base:
+            cruise = phase_of(r[3]) == 'Cruise'
+            var.append([r[0], r[1], r[2] * s_t + j, r[3] if cruise else r[3] * s_r, r[4] * s_f + 0.01 * j])
+        if rng.random() < 0.5:
+            rng.shuffle(var)
+        tables.append(var)
+    qs = gen_queries(rng, base, flm, dense=False)
+    qs = [q for q in qs if not q['d'] or rng.random() < 0.3]        # mostly through evaluate()
+    tabs = [{'rows': t, 'layout': gen_layout(rng), 'queries': [dict(q) for q in qs]} for t in tables]
+    ops = [['new', i] for i in range(n)]
+    for k in range(len(qs)):
+        for i in range(n):
+            ops.append(['q', i, k])
+    ops.append(['new', 0])
+    for k in rng.sample(range(len(qs)), min(12, len(qs))):
+        ops.append(['q', 0, k])
+        ops.append(['q', n - 1, k])
+    for k in rng.sample(range(len(qs)), min(6, len(qs))):
+        i = rng.randrange(n)
+        ops += [['q', i, k], ['new', i], ['q', i, k]]
+    return {'kind': 'session', 'order': oname, 'tables': tabs, 'ops': ops}
+
+
+def impl_session(case):
+    from AEIC.performance.models import PerformanceModel
+    inst: dict = {}
+    out = []
+    for op in case['ops']:
+        if op[0] == 'new':
+            try:
+                inst[op[1]] = PerformanceModel.from_data(model_data(case['tables'][op[1]]))
+                out.append(None)
+            except Exception as e:  # noqa: BLE001
+                inst[op[1]] = None
+                out.append(classify_exc(e))
+        else:
+            m = inst.get(op[1])
+            out.append(['Rej', 'NotLoaded'] if m is None else impl_query(m, case['tables'][op[1]]['queries'][op[2]]))
+    return out
+
+
+def check_sessions(chk: Check, cases, sw, units: Units):
+    impls = [impl_session(c) for c in cases]
+    exprs, where = [], []
+    for ci, c in enumerate(cases):
+        for ti, t in enumerate(c['tables']):
+            exprs.append(coq_table_expr({'rows': t['rows'], 'queries': t['queries']}, sw))
+            where.append((ci, ti))
+    model = dict(zip(where, chk.coq_eval(HEADER, exprs, shard=25, label='sessions')))
+    for ci, (c, outs) in enumerate(zip(cases, impls)):
+        chk.case({'kind': 'session', 'n_tables': len(c['tables']), 'n_ops': len(c['ops']),
+                  'rows0': c['tables'][0]['rows']}, nontrivial=True)
+        chk.count('session:cases')
+        chk.count('session:ops', len(c['ops']))
+        failed = False
+        first: dict = {}
+        for oi, (op, r) in enumerate(zip(c['ops'], outs)):
+            if op[0] == 'new':
+                if r is not None:
+                    chk.fail(f'valid table refused at load inside a session (op {oi}): {r}',
+                             {**c, 'first_bad_op': oi}, signature=None)
+                    failed = True
+                continue
+            t = c['tables'][op[1]]
+            q = t['queries'][op[2]]
+            chk.count('session:query:' + q['tag'])
+            j = judge_query(t['rows'], q, r, units)
+            if j is not None:
+                desc, sigs = j
+                for sg in (sigs or [None]):
+                    chk.fail(f"session op {oi} (model {op[1]}, {q['tag']} {q['p']}): {desc}",
+                             {**c, 'first_bad_op': oi, 'impl': r}, signature=sg)
+                failed = True
+                break
+            key = (op[1], op[2])
+            if key in first and first[key] != r:
+                chk.fail(f'session op {oi}: model {op[1]} answered {first[key]} before and {r} now for the same '
+                         f'(altitude, mass, phase)', {**c, 'first_bad_op': oi})
+                failed = True
+                break
+            first.setdefault(key, r)
+        bad = None
+        for oi, (op, r) in enumerate(zip(c['ops'], outs)):
+            mo = model.get((ci, op[1]))
+            if op[0] != 'q' or mo is None:
+                continue
+            if norm_err(mo[0]) is not None:
+                bad = (oi, 'load', norm_err(mo[0]))
+                break
+            m = norm_model_result(mo[1][op[2]])
+            q = c['tables'][op[1]]['queries'][op[2]]
+            if not same_result(r, m, exact=(q['tag'] == 'node-direct')):
+                bad = (oi, r, m)
+                break
+        if bad:
+            chk.broken('correspondence:C06_Model.evaluate(session)',
+                       f'op {bad[0]}: implementation {bad[1]} vs model {bad[2]}', {**c, 'first_bad_op': bad[0]})
+        elif not failed:
+            chk.traces_validated += 1
+
+
 def ptf_queries(case, flm):
     qs = []
     for f, cru, cl, de in case['lines']:
@@ -981,9 +1123,23 @@ def check_ptfs(chk: Check, cases, sw, units: Units):
         chk.count('ptf:rows', len(c['lines']))
         slim = {k: v for k, v in c.items() if k not in ('queries',)}
         failed = False
+        zero_rate = any(v == 0 for _, _, cl, _ in c['lines'] for v in cl[1:4])
+        chk.count('ptf:with-0-fpm-climb-entry' if zero_rate else 'ptf:all-rates-positive')
         if io['load'] is not None:
+            sig = None
+            if zero_rate and isinstance(io['load'], tuple) and io['load'][0] == 'ECoverage':
+                sig = SIG_PTF0
             chk.fail(f"model file generated from a well-formed PTF file is refused / not produced: {io['load']}",
-                     {**slim, 'impl_load': str(io['load'])})
+                     {**slim, 'impl_load': str(io['load'])}, signature=sig)
+            if mo is not None and io['rows'] is not None:
+                m_rows = [[float(x) for x in r] for r in mo[0]]
+                if m_rows != io['rows']:
+                    chk.broken('correspondence:C06_Model.build_table', 'refused PTF table: rows differ', slim)
+                elif norm_err(mo[1][0]) != norm_err(io['load']):
+                    chk.broken('correspondence:C06_Model.load',
+                               f"refused PTF table: implementation {io['load']!r} vs model {norm_err(mo[1][0])!r}", slim)
+                else:
+                    chk.traces_validated += 1
             continue
         # ---- oracle: every PTF row, re-read independently, is reproduced after unit conversion
         masses, prow = small_ptf_reader(c['text'])
@@ -1078,10 +1234,13 @@ def run(chk: Check):
     corpus = load_corpus(chk)
     flm = units.FL_TO_METERS
     tables = [c for c in corpus if c['kind'] == 'table']
-    tables += [gen_table_case(chk.rng, flm) for _ in range(chk.n(260, 4000))]
+    tables += [gen_table_case(chk.rng, flm) for _ in range(chk.n(220, 3500))]
+    sessions = [c for c in corpus if c['kind'] == 'session']
+    sessions += [gen_session_case(chk.rng, flm) for _ in range(chk.n(25, 300))]
     ptfs = [c for c in corpus if c['kind'] == 'ptf']
     ptfs += [gen_ptf_case(chk.rng, flm) for _ in range(chk.n(40, 500))]
     check_tables(chk, tables, sw, units)
+    check_sessions(chk, sessions, sw, units)
     check_ptfs(chk, ptfs, sw, units)
     from AEIC.config import Config
     Config.reset()
@@ -1099,5 +1258,7 @@ def replay(chk: Check, rp):
         check_tables(chk, [case], sw, units)
     elif case.get('kind') == 'ptf':
         check_ptfs(chk, [case], sw, units)
+    elif case.get('kind') == 'session':
+        check_sessions(chk, [case], sw, units)
     from AEIC.config import Config
     Config.reset()
